@@ -21,7 +21,13 @@ pub struct Counting;
 unsafe impl GlobalAlloc for Counting {
     unsafe fn alloc(&self, l: Layout) -> *mut u8 {
         let _ = ALLOCS.try_with(|c| c.set(c.get() + 1));
-        System.alloc(l)
+        let p = System.alloc(l);
+        // fresh pages from the OS are zero, which would hide a forgotten initialisation (for
+        // example in `boxed()`): hand out dirty memory instead
+        if !p.is_null() {
+            std::ptr::write_bytes(p, 0xA5, l.size());
+        }
+        p
     }
     unsafe fn alloc_zeroed(&self, l: Layout) -> *mut u8 {
         let _ = ALLOCS.try_with(|c| c.set(c.get() + 1));
@@ -428,7 +434,7 @@ fn run_generic<const N: usize>(c: &ACase) -> Result<u64, String> {
     Ok(nontrivial)
 }
 
-pub const ACAPS: [usize; 12] = [0, 1, 2, 3, 4, 5, 6, 8, 16, 33, 100, 1000];
+pub const ACAPS: [usize; 16] = [0, 1, 2, 3, 4, 5, 6, 8, 16, 33, 64, 65, 100, 128, 129, 1000];
 
 pub fn run_acase(c: &ACase) -> Result<u64, String> {
     match c.n {
@@ -442,7 +448,11 @@ pub fn run_acase(c: &ACase) -> Result<u64, String> {
         8 => run_generic::<8>(c),
         16 => run_generic::<16>(c),
         33 => run_generic::<33>(c),
+        64 => run_generic::<64>(c),
+        65 => run_generic::<65>(c),
         100 => run_generic::<100>(c),
+        128 => run_generic::<128>(c),
+        129 => run_generic::<129>(c),
         1000 => run_generic::<1000>(c),
         n => Err(format!("capacity {n} not in table")),
     }
